@@ -133,7 +133,8 @@ def report_drift(ctx, name, edges, bad):
 
 # ---------------------------------------------------------------- S => P, pure TLC
 MC_CFGS = {"quick": ["MC_Protocol.cfg", "MC_Protocol_answer.cfg"],
-           "thorough": ["MC_Protocol.cfg", "MC_Protocol_answer.cfg", "MC_Protocol_gensyn.cfg", "MC_Protocol_faults.cfg"]}
+           "thorough": ["MC_Protocol.cfg", "MC_Protocol_answer.cfg", "MC_Protocol_gensyn.cfg", "MC_Protocol_faults.cfg",
+                        "MC_Protocol_faults2.cfg"]}
 
 
 def model_check(ctx, tier=None, workers=4, heap="8g"):
